@@ -26,15 +26,20 @@
      rule set    = `sel, sel { decl; decl }` newline
 
    Well-formed selectors, [wf_selector] (a boolean): with l = rev (comps s) the source order,
-     - every component is [comp_ok]: identifiers of CElement / CClass are
-       [-](_|a-z)(_|a-z|0-9|-)*, those of CHash (_|a-z|0-9|-)+, |a|,|b| <= 2^31-1 (the range the
-       parser accepts: it parses the magnitude as an i32 and then applies the sign);
+     - every component is [comp_ok]: identifiers of CElement are [-](_|a-z)(_|a-z|0-9|-)*
+       ([ident_okb]; the parser lower-cases element names), those of CClass are
+       [-](_|a-z|A-Z)(_|a-z|A-Z|0-9|-)* ([ident_okc]) and those of CHash (_|a-z|A-Z|0-9|-)+
+       ([body_okc]): class names and ids are case-sensitive and come back as written
+       (parse_ident_cased / parse_identstring_cased; before that repair of the parser they were
+       lower-cased and [comp_ok] had to demand lower case for them too); |a|,|b| <= 2^31-1 (the
+       range the parser accepts: it parses the magnitude as an i32 and then applies the sign);
      - [chain l]: each component may be followed by the first printed character of the next
        one ([follow]): no identifier directly after an identifier (`.a` `b` would read `.ab`),
        no two combinators in a row;
      - l is not empty and neither starts nor ends with a combinator.
    RESTRICTIONS with respect to "everything parse_selector can return":
-     - identifiers over the SIMPLE ALPHABET only: lower case (the parser lowercases A-Z), no
+     - identifiers over the SIMPLE ALPHABET only: element names in lower case (the parser
+       lowercases A-Z there), class names and ids in either case, no
        escapes `\41 ` / `\{`, no non-ASCII characters.  The cw / ws / lab fields of the identifier
        characters are arbitrary (they survive the round trip), except that a leading `-` must be
        the parser's own [dash] character, which is what parse_ident returns.  The general case
@@ -321,6 +326,131 @@ Proof.
   assert (Hc : lownm (cp c) = true) by (cbn [body_ok forallb] in Hb; apply andb_prop in Hb; tauto).
   rewrite skip_ws_id by (cbn [app nf]; cls).
   apply many1_R, body_many; auto.
+Qed.
+
+(* ---- the `_cased` twins: class names and ids keep their letter case (parse_ident_cased,
+   parse_identstring_cased), so their alphabet has both cases ---- *)
+Definition casestart (x : N) : bool := (x =? 95) || is_lower x || is_upper x.
+Definition casenm (x : N) : bool := (x =? 95) || is_lower x || is_upper x || is_digit x || (x =? 45).
+Definition body_okc (cs : text) : bool := forallb (fun c => casenm (cp c)) cs.
+(* what parse_ident_cased can return without escapes: [-] (_|a-z|A-Z) (_|a-z|A-Z|0-9|-)* *)
+Definition ident_okc (n : text) : bool :=
+  match n with
+  | [] => false
+  | c :: r =>
+    if cp c =? 45
+    then is_dash_chr c && match r with st :: cs => casestart (cp st) && body_okc cs | [] => false end
+    else casestart (cp c) && body_okc r
+  end.
+
+Ltac clsc := unfold casestart, casenm in *; cls.
+
+Lemma ident_okc_inv : forall n, ident_okc n = true ->
+  exists st cs, (n = st :: cs \/ n = dash :: st :: cs) /\ casestart (cp st) = true /\ body_okc cs = true.
+Proof.
+  intros [|c r] H; cbn [ident_okc] in H; [discriminate|].
+  destruct (cp c =? 45) eqn:E.
+  - apply andb_prop in H; destruct H as [Hd H]. apply is_dash_chr_eq in Hd; subst c.
+    destruct r as [|st cs]; [discriminate|]. apply andb_prop in H; destruct H as [H1 H2].
+    exists st, cs; auto.
+  - apply andb_prop in H; destruct H as [H1 H2]. exists c, r; auto.
+Qed.
+
+(* the lower-case alphabet is part of the two-case one *)
+Lemma body_ok_c : forall cs, body_ok cs = true -> body_okc cs = true.
+Proof.
+  induction cs as [|c cs IH]; [reflexivity|]. cbn [body_ok body_okc forallb]. intros H.
+  apply andb_prop in H; destruct H as [Hc H]. fold (body_ok cs) in H. fold (body_okc cs).
+  rewrite (IH H). assert (E : casenm (cp c) = true) by clsc. rewrite E. reflexivity.
+Qed.
+Lemma ident_okb_c : forall n, ident_okb n = true -> ident_okc n = true.
+Proof.
+  intros [|c r] H; cbn [ident_okb ident_okc] in *; [discriminate|].
+  destruct (cp c =? 45).
+  - apply andb_prop in H; destruct H as [Hd H]. rewrite Hd. destruct r as [|st cs]; [discriminate|].
+    apply andb_prop in H; destruct H as [H1 H2]. rewrite (body_ok_c _ H2).
+    assert (E : casestart (cp st) = true) by clsc. rewrite E. reflexivity.
+  - apply andb_prop in H; destruct H as [H1 H2]. rewrite (body_ok_c _ H2).
+    assert (E : casestart (cp c) = true) by clsc. rewrite E. reflexivity.
+Qed.
+
+Lemma nmchar_cased_ok : forall c t, casenm (cp c) = true -> nmchar_cased (c :: t) = POk c t.
+Proof.
+  intros c t H; unfold nmchar_cased, nmchar_char_cased.
+  assert (E : (cp c =? 95) || is_lower (cp c) || is_upper (cp c) || is_digit (cp c) || (cp c =? 45) = true)
+    by clsc.
+  rewrite E. reflexivity.
+Qed.
+Lemma nmchar_cased_fail : forall t, nf identcont t -> nmchar_cased t = PFail.
+Proof.
+  intros t H; unfold nmchar_cased.
+  assert (E : nmchar_char_cased t = PFail).
+  { destruct t as [|c t]; [reflexivity|]; cbn [nf] in H; unfold nmchar_char_cased.
+    assert (E : (cp c =? 95) || is_lower (cp c) || is_upper (cp c) || is_digit (cp c) || (cp c =? 45) = false)
+      by cls.
+    rewrite E; reflexivity. }
+  rewrite E; cbn [palt]. apply ident_escape_fail.
+  eapply nf_imp; [|exact H]. intros x Hx; cls.
+Qed.
+Lemma nmstart_cased_ok : forall c t, casestart (cp c) = true -> nmstart_cased (c :: t) = POk c t.
+Proof.
+  intros c t H; unfold nmstart_cased, nmstart_char_cased.
+  assert (E : (cp c =? 95) || is_lower (cp c) || is_upper (cp c) = true) by clsc.
+  rewrite E. reflexivity.
+Qed.
+Lemma nmstart_cased_fail : forall t,
+  nf (fun x => (x =? 95) || is_lower x || is_upper x || (x =? 92)) t -> nmstart_cased t = PFail.
+Proof.
+  intros t H; unfold nmstart_cased.
+  assert (E : nmstart_char_cased t = PFail).
+  { destruct t as [|c t]; [reflexivity|]; cbn [nf] in H; unfold nmstart_char_cased.
+    assert (E : (cp c =? 95) || is_lower (cp c) || is_upper (cp c) = false) by cls.
+    rewrite E; reflexivity. }
+  rewrite E; cbn [palt]. apply ident_escape_fail.
+  eapply nf_imp; [|exact H]. intros x Hx; cls.
+Qed.
+
+Lemma body_many_c : forall cs k, body_okc cs = true -> nf identcont k ->
+  ManyR nmchar_cased (cs ++ k) cs k.
+Proof.
+  induction cs as [|c cs IH]; intros k Hb Hk; cbn [app].
+  - apply MR_nil, nmchar_cased_fail, Hk.
+  - cbn [body_okc forallb] in Hb. apply andb_prop in Hb; destruct Hb as [Hc Hb].
+    eapply MR_cons; [apply nmchar_cased_ok, Hc|cbn [length]; lia|apply IH; auto].
+Qed.
+
+Lemma parse_ident_cased_ok : forall n k, ident_okc n = true -> nf identcont k ->
+  parse_ident_cased (n ++ k) = POk n k.
+Proof.
+  intros n k Hn Hk. apply ident_okc_inv in Hn.
+  destruct Hn as (st & cs & [Hn|Hn] & Hst & Hcs); subst n; unfold parse_ident_cased; cbv zeta; cbn [app].
+  - rewrite skip_ws_id by (cbn [nf]; clsc).
+    rewrite ptag_hd by clsc. cbn [popt pbind].
+    rewrite nmstart_cased_ok by exact Hst. cbn [pbind].
+    rewrite (many0_R _ _ _ _ _ (body_many_c cs k Hcs Hk)). reflexivity.
+  - rewrite skip_ws_id by (cbn [nf dash mk cp]; cls).
+    unfold dash at 1 2; cbn [ptag cp mk]. change (45 =? 45) with true. cbn [popt pbind].
+    rewrite nmstart_cased_ok by exact Hst. cbn [pbind].
+    rewrite (many0_R _ _ _ _ _ (body_many_c cs k Hcs Hk)). reflexivity.
+Qed.
+Lemma parse_ident_cased_fail : forall t,
+  nf (fun x => wsstart x || (x =? 45) || (x =? 95) || is_lower x || is_upper x || (x =? 92)) t ->
+  parse_ident_cased t = PFail.
+Proof.
+  intros t H; unfold parse_ident_cased; cbv zeta.
+  rewrite skip_ws_id by (eapply nf_imp; [|exact H]; intros x Hx; cls).
+  rewrite ptag_nf by (eapply nf_imp; [|exact H]; intros x Hx; cls). cbn [popt pbind].
+  rewrite nmstart_cased_fail by (eapply nf_imp; [|exact H]; intros x Hx; cls). reflexivity.
+Qed.
+
+Lemma parse_identstring_cased_ok : forall h k, h <> [] -> body_okc h = true -> nf identcont k ->
+  parse_identstring_cased (h ++ k) = POk h k.
+Proof.
+  intros h k Hne Hb Hk; unfold parse_identstring_cased.
+  destruct h as [|c cs]; [congruence|].
+  assert (Hc : casenm (cp c) = true) by (cbn [body_okc forallb] in Hb; apply andb_prop in Hb; tauto).
+  rewrite skip_ws_id by (cbn [app nf]; clsc).
+  apply many1_R, body_many_c; auto.
 Qed.
 
 (* ------------------------------------------------------------------ *)
@@ -672,8 +802,9 @@ Hypothesis Hq : nws_ok q.
 
 Definition comp_ok (c : comp) : bool :=
   match c with
-  | CClass n | CElement n => ident_okb n
-  | CHash h => match h with [] => false | _ => body_ok h end
+  | CClass n => ident_okc n          (* either letter case: kept as written *)
+  | CElement n => ident_okb n        (* lower case: the parser lower-cases element names *)
+  | CHash h => match h with [] => false | _ => body_okc h end
   | CNthChild a b => (Z.abs a <=? i32max)%Z && (Z.abs b <=? i32max)%Z
   | CStar | CCombChild | CCombDescendant => true
   end.
@@ -740,7 +871,7 @@ Proof.
     rewrite comp_simple by (apply nf_lit; reflexivity).
     rewrite (ptag_nf 42) by (apply nf_lit; reflexivity). cbn [pbind palt].
     unfold parse_class. rewrite ptag_lit. cbn [pbind].
-    rewrite parse_ident_ok; [reflexivity|exact Hx|].
+    rewrite parse_ident_cased_ok; [reflexivity|exact Hx|].
     eapply nf_imp; [|exact Hk]. intros y Hy; cbv beta in Hy; destruct (identcont y); cbn in Hy |- *; congruence.
   - (* element *)
     cbn [print_comp_q].
@@ -760,7 +891,7 @@ Proof.
     rewrite (ptag_nf 42) by (apply nf_lit; reflexivity). cbn [pbind palt].
     unfold parse_class. rewrite (ptag_nf 46) by (apply nf_lit; reflexivity). cbn [pbind palt].
     unfold parse_hash. rewrite ptag_lit. cbn [pbind].
-    rewrite parse_identstring_ok; [reflexivity|destruct h; [discriminate|discriminate]
+    rewrite parse_identstring_cased_ok; [reflexivity|destruct h; [discriminate|discriminate]
                                   |destruct h; [discriminate|exact Hx]|].
     eapply nf_imp; [|exact Hk]. intros y Hy; cbv beta in Hy; destruct (identcont y); cbn in Hy |- *; congruence.
   - (* star *)
@@ -1154,40 +1285,75 @@ Proof.
   rewrite ptag_nf by exact H40. reflexivity.
 Qed.
 
-(* token-level round trips, through parse_token_not_semicolon *)
-Lemma ptns_hash : forall w h k, wsm w -> h <> [] -> body_ok h = true -> nf identcont k ->
-  parse_token_not_semicolon (w ++ of_ascii [35] ++ h ++ k) = POk (THash h) k.
+(* the value loop value_toks_f as a relation (no fuel).  [vstep d t] is one step of the loop at
+   bracket depth d: the next token, or PFail where the loop stops (a `}`, a `;` at depth 0, or no
+   token at all) *)
+Definition vstep (d : nat) (t : text) : pr token :=
+  match parse_token t with
+  | POk tok rest =>
+      if is_close_brace tok || (is_semicolon tok && Nat.eqb d 0) then PFail else POk tok rest
+  | other => other
+  end.
+Inductive ValR : nat -> text -> list token -> text -> Prop :=
+| VR_nil : forall d t, vstep d t = PFail -> ValR d t [] t
+| VR_cons : forall d t a t' l r, vstep d t = POk a t' -> (length t' < length t)%nat ->
+    ValR (depth_after a d) t' l r -> ValR d t (a :: l) r.
+
+Lemma value_toks_f_R : forall d t l r, ValR d t l r ->
+  forall fuel acc, (length t < fuel)%nat -> value_toks_f fuel d t acc = POk (rev acc ++ l) r.
 Proof.
-  intros w h k Hw Hne Hb Hk. unfold parse_token_not_semicolon.
+  intros d t l r H; induction H as [d t Hp|d t a t' l r Hp Hlt HR IH]; intros fuel acc Hf;
+    (destruct fuel as [|f]; [lia|]); cbn [value_toks_f]; unfold vstep in Hp.
+  - destruct (parse_token t) as [tok rest| |s|]; try discriminate.
+    + destruct (is_close_brace tok); [rewrite app_nil_r; reflexivity|].
+      destruct (is_semicolon tok && Nat.eqb d 0); cbn [orb] in Hp;
+        [rewrite app_nil_r; reflexivity|discriminate].
+    + rewrite app_nil_r; reflexivity.
+  - destruct (parse_token t) as [tok rest| |s|]; try discriminate.
+    destruct (is_close_brace tok); cbn [orb] in Hp; [discriminate|].
+    destruct (is_semicolon tok && Nat.eqb d 0); cbn [orb] in Hp; [discriminate|].
+    inversion Hp; subst tok rest.
+    destruct (Nat.eqb_spec (length t') (length t)) as [He|Hne]; [lia|].
+    rewrite IH by lia. cbn [rev]. rewrite <- app_assoc. reflexivity.
+Qed.
+Lemma value_toks_R : forall t l r, ValR 0 t l r -> value_toks t = POk l r.
+Proof. intros t l r H; unfold value_toks. rewrite (value_toks_f_R _ _ _ _ H) by lia. reflexivity. Qed.
+
+(* token-level round trips, through one step of the value loop (at any bracket depth) *)
+Lemma ptns_hash : forall d w h k, wsm w -> h <> [] -> body_ok h = true -> nf identcont k ->
+  vstep d (w ++ of_ascii [35] ++ h ++ k) = POk (THash h) k.
+Proof.
+  intros d w h k Hw Hne Hb Hk. unfold vstep.
   change (of_ascii [35] ++ h ++ k) with (mk 35 1 :: (h ++ k)).
   rewrite parse_token_hash by exact Hw. rewrite parse_identstring_ok by assumption. reflexivity.
 Qed.
-Lemma ptns_bang : forall w k, wsm w ->
-  parse_token_not_semicolon (w ++ of_ascii [33] ++ k) = POk (TDelim 33) k.
+Lemma ptns_bang : forall d w k, wsm w ->
+  vstep d (w ++ of_ascii [33] ++ k) = POk (TDelim 33) k.
 Proof.
-  intros w k Hw. unfold parse_token_not_semicolon.
+  intros d w k Hw. unfold vstep.
   change (of_ascii [33] ++ k) with (mk 33 1 :: k). rewrite parse_token_bang by exact Hw. reflexivity.
 Qed.
-Lemma ptns_word : forall w l k, wsm w -> ident_okb (of_ascii l) = true ->
+Lemma ptns_word : forall d w l k, wsm w -> ident_okb (of_ascii l) = true ->
   match l with x :: _ => is_lower x = true | [] => False end ->
   nf identcont k -> nf (fun x => x =? 40) k ->
-  parse_token_not_semicolon (w ++ of_ascii l ++ k) = POk (TIdent (of_ascii l)) k.
+  vstep d (w ++ of_ascii l ++ k) = POk (TIdent (of_ascii l)) k.
 Proof.
-  intros w l k Hw Hl Hx Hk H40. unfold parse_token_not_semicolon.
+  intros d w l k Hw Hl Hx Hk H40. unfold vstep.
   destruct l as [|x l]; [contradiction|].
   change (of_ascii (x :: l) ++ k) with (mk x 1 :: (of_ascii l ++ k)).
   rewrite parse_token_lower by (auto; exact Hx).
   change (mk x 1 :: (of_ascii l ++ k)) with (of_ascii (x :: l) ++ k).
   rewrite parse_ident_like_ok by assumption. reflexivity.
 Qed.
-Lemma ptns_semi : forall w k, wsm w -> parse_token_not_semicolon (w ++ of_ascii [59] ++ k) = PFail.
+(* a `;` outside all brackets and a `}` end the value *)
+Lemma ptns_semi : forall w k, wsm w -> vstep 0 (w ++ of_ascii [59] ++ k) = PFail.
 Proof.
-  intros w k Hw. unfold parse_token_not_semicolon.
+  intros w k Hw. unfold vstep.
   change (of_ascii [59] ++ k) with (mk 59 1 :: k). rewrite parse_token_semi by exact Hw. reflexivity.
 Qed.
-Lemma ptns_close : forall w k, wsm w -> parse_token_not_semicolon (w ++ of_ascii [125] ++ k) = PFail.
+Lemma ptns_close : forall d w k, wsm w -> vstep d (w ++ of_ascii [125] ++ k) = PFail.
 Proof.
-  intros w k Hw. unfold parse_token_not_semicolon.
+  intros d w k Hw. unfold vstep.
   change (of_ascii [125] ++ k) with (mk 125 1 :: k). rewrite parse_token_close by exact Hw. reflexivity.
 Qed.
 
@@ -1340,41 +1506,41 @@ Definition print_ruleset : cssruleset -> text := print_ruleset_ws canon.
 
 (* a text at which a declaration value ends *)
 Definition vstop (K : text) : Prop :=
-  parse_token_not_semicolon K = PFail /\ nf identcont K /\ nf (fun x => x =? 40) K.
+  vstep 0 K = PFail /\ nf identcont K /\ nf (fun x => x =? 40) K.
 
 Lemma len_app_lt : forall (a k : text), a <> [] -> (length k < length (a ++ k))%nat.
 Proof. intros a k H; rewrite app_length; destruct a; [congruence|cbn [length]; lia]. Qed.
 
 Lemma value_many : forall p data i K, wsm (w_imp p) -> decl_ok (mkdecl data i) = true -> vstop K ->
-  ManyR parse_token_not_semicolon (val_text data ++ imp_text p i ++ K) (val_toks data ++ imp_toks i) K.
+  ValR 0 (val_text data ++ imp_text p i ++ K) (val_toks data ++ imp_toks i) K.
 Proof.
   intros p data i K Hw Hd (HK1 & HK2 & HK3).
   (* the tail: [!important] then K *)
-  assert (Htail : ManyR parse_token_not_semicolon (imp_text p i ++ K) (imp_toks i) K /\
+  assert (Htail : ValR 0 (imp_text p i ++ K) (imp_toks i) K /\
                   nf identcont (imp_text p i ++ K) /\ nf (fun x => x =? 40) (imp_text p i ++ K)).
   { destruct i; cbn [imp_text imp_toks app].
     - rewrite <- !app_assoc. split; [|split].
-      + eapply MR_cons; [apply ptns_bang, Hw| |].
+      + eapply VR_cons; [apply ptns_bang, Hw| |].
         * rewrite !app_length; cbn [length of_ascii map]; lia.
-        * eapply MR_cons; [apply (ptns_word [] s_important K wsm_nil); auto; reflexivity
-                          |apply len_app_lt; discriminate|apply MR_nil, HK1].
+        * eapply VR_cons; [apply (ptns_word _ [] s_important K wsm_nil); auto; reflexivity
+                          |apply len_app_lt; discriminate|apply VR_nil, HK1].
       + apply wsm_nf; [exact Hw|intros; cls|right; apply nf_lit; reflexivity].
       + apply wsm_nf; [exact Hw|intros; cls|right; apply nf_lit; reflexivity].
-    - split; [apply MR_nil, HK1|split; assumption]. }
+    - split; [apply VR_nil, HK1|split; assumption]. }
   destruct Htail as (HT1 & HT2 & HT3).
   unfold decl_ok in Hd; cbn [d_data] in Hd.
   destruct data as [r g b|r g b| | | | |[|]| | |]; try discriminate; cbn [val_text val_toks app].
   - rewrite <- app_assoc.
     assert (Hr : r < 256 /\ g < 256 /\ b < 256) by lia. destruct Hr as (Hr & Hg & Hb).
-    eapply MR_cons; [apply (ptns_hash [] _ _ wsm_nil); [discriminate|apply hex6_body; assumption|exact HT2]
+    eapply VR_cons; [apply (ptns_hash _ [] _ _ wsm_nil); [discriminate|apply hex6_body; assumption|exact HT2]
                     |rewrite !app_length; cbn [length of_ascii map]; lia|exact HT1].
   - rewrite <- app_assoc.
     assert (Hr : r < 256 /\ g < 256 /\ b < 256) by lia. destruct Hr as (Hr & Hg & Hb).
-    eapply MR_cons; [apply (ptns_hash [] _ _ wsm_nil); [discriminate|apply hex6_body; assumption|exact HT2]
+    eapply VR_cons; [apply (ptns_hash _ [] _ _ wsm_nil); [discriminate|apply hex6_body; assumption|exact HT2]
                     |rewrite !app_length; cbn [length of_ascii map]; lia|exact HT1].
-  - eapply MR_cons; [apply (ptns_word [] s_none _ wsm_nil); auto; reflexivity
+  - eapply VR_cons; [apply (ptns_word _ [] s_none _ wsm_nil); auto; reflexivity
                     |apply len_app_lt; discriminate|exact HT1].
-  - eapply MR_cons; [apply (ptns_word [] s_block _ wsm_nil); auto; reflexivity
+  - eapply VR_cons; [apply (ptns_word _ [] s_block _ wsm_nil); auto; reflexivity
                     |apply len_app_lt; discriminate|exact HT1].
 Qed.
 
@@ -1382,7 +1548,7 @@ Lemma parse_value_ok : forall p data i K, wsm (w_imp p) -> decl_ok (mkdecl data 
   parse_value (val_text data ++ imp_text p i ++ K) = POk (val_toks data, i) K.
 Proof.
   intros p data i K Hw Hd HK. unfold parse_value.
-  rewrite (many0_R _ _ _ _ _ (value_many p data i K Hw Hd HK)). cbn [pbind].
+  rewrite (value_toks_R _ _ _ (value_many p data i K Hw Hd HK)). cbn [pbind].
   unfold decl_ok in Hd; cbn [d_data] in Hd.
   destruct data as [r g b|r g b| | | | |[|]| | |]; try discriminate; destruct i; reflexivity.
 Qed.
@@ -1461,6 +1627,10 @@ Proof.
   rewrite skip_ws_wsm; [|exact Hw|eapply nf_imp; [|exact HN]; intros x Hx; cls].
   rewrite ptag_nf by (eapply nf_imp; [|exact HN]; intros x Hx; cls). reflexivity.
 Qed.
+(* no empty declaration in front: the leading many0 semi_item of parse_rules consumes nothing *)
+Lemma many0_semi_item_none : forall N, nf (fun x => wsstart x || (x =? 59)) N ->
+  many0 semi_item N = POk [] N.
+Proof. intros N HN. apply many0_R, MR_nil, (semi_item_fail [] N wsm_nil HN). Qed.
 Lemma semi_sep_ok : forall w1 w2 N, wsm w1 -> wsm w2 -> nf (fun x => wsstart x || (x =? 59)) N ->
   semi_sep (w1 ++ of_ascii [59] ++ w2 ++ N) = POk [tt] N.
 Proof.
@@ -1511,13 +1681,17 @@ Section Decls.
     - exists (of_ascii [125] ++ Z). cbn [app]. unfold K. rewrite app_assoc.
       rewrite skip_ws_wsm by (try apply wsm_app; auto; apply nf_lit; reflexivity).
       split; [|apply skip_ws_id, nf_lit; reflexivity].
-      unfold parse_rules. apply separated_list0_nil.
+      unfold parse_rules.
+      rewrite many0_semi_item_none by reflexivity.
+      cbn [pbind]. apply separated_list0_nil.
       unfold parse_declaration. rewrite parse_ident_fail by (apply nf_lit; reflexivity). reflexivity.
     - exists K. rewrite <- app_assoc.
       rewrite skip_ws_wsm by (auto; apply print_decl_nf; intros; cls).
       cbn [forallb] in Hds. apply andb_prop in Hds; destruct Hds as [Hd Hds].
       split; [|unfold K; apply skip_ws_wsm; auto; apply nf_lit; reflexivity].
-      unfold parse_rules. eapply separated_list0_R.
+      unfold parse_rules.
+      rewrite many0_semi_item_none by (apply print_decl_nf; intros; cls).
+      cbn [pbind]. eapply separated_list0_R.
       + apply parse_declaration_ok; auto. apply vstop_tail.
       + apply decls_tail, Hds.
   Qed.
@@ -1998,6 +2172,40 @@ Example repaired_pseudo_comma :
      [112;58;58;98;101;102;111;114;101;32;44;32;105;123;100;105;115;112;108;97;121;58;110;111;110;101;125])
      = CssOk [r1; r2].
 Proof. do 2 eexists; repeat split; vm_compute; reflexivity. Qed.
+
+(* (c) `.MsoNormal, #Main p.Note { color: red }`: class names and ids keep their letter case
+       (parse_class -> parse_ident_cased, parse_hash -> parse_identstring_cased; they used to be
+       lower-cased while read, so `.MsoNormal` was stored as `msonormal` and never matched
+       class="MsoNormal").  Through Css.sel_matches the first rule matches an element with
+       class="MsoNormal" and not one with class="msonormal"; the second one needs id="Main" and
+       class="Note" as written.  The element name `p` (and `P`) is still lower-cased. *)
+Definition ex_cased_sheet : text := of_ascii
+  [46;77;115;111;78;111;114;109;97;108;44;32;35;77;97;105;110;32;112;46;78;111;116;101;32;123;32;
+   99;111;108;111;114;58;32;114;101;100;32;125].
+Definition ex_cased_sel1 : selector := mksel [CClass (of_ascii [77;115;111;78;111;114;109;97;108])] None.
+Definition ex_cased_sel2 : selector :=
+  mksel [CClass (of_ascii [78;111;116;101]); CElement (of_ascii [112]); CCombDescendant;
+         CHash (of_ascii [77;97;105;110])] None.
+Definition ex_el (name : list N) (k v : list N) : anc := mkanc (of_ascii name) [(of_ascii k, of_ascii v)] 1.
+Example repaired_cased_names :
+  parse_css_rules ex_cased_sheet =
+    CssOk [mkrs ex_cased_sel1 [mksd (SColour 255 0 0) false];
+           mkrs ex_cased_sel2 [mksd (SColour 255 0 0) false]] /\
+  wf_selector ex_cased_sel1 = true /\ wf_selector ex_cased_sel2 = true /\
+  (* <p class="MsoNormal"> matches, <p class="msonormal"> does not *)
+  sel_matches ex_cased_sel1 [ex_el [112] s_class [77;115;111;78;111;114;109;97;108]] = true /\
+  sel_matches ex_cased_sel1 [ex_el [112] s_class [109;115;111;110;111;114;109;97;108]] = false /\
+  (* <div id="Main"><p class="Note"> matches; id="main" or class="note" does not *)
+  sel_matches ex_cased_sel2 [ex_el [112] s_class [78;111;116;101]; ex_el [100;105;118] s_id [77;97;105;110]] = true /\
+  sel_matches ex_cased_sel2 [ex_el [112] s_class [78;111;116;101]; ex_el [100;105;118] s_id [109;97;105;110]] = false /\
+  sel_matches ex_cased_sel2 [ex_el [112] s_class [110;111;116;101]; ex_el [100;105;118] s_id [77;97;105;110]] = false /\
+  (* the round trip theorem covers them: the printed selector is the source text *)
+  print_selector ex_cased_sel2 = of_ascii [35;77;97;105;110;32;112;46;78;111;116;101] /\
+  parse_selector (print_selector ex_cased_sel2 ++ of_ascii [123]) = POk ex_cased_sel2 (of_ascii [123]) /\
+  (* element names are still lower-cased:  P.Note{  reads as  p.Note *)
+  parse_selector (of_ascii [80;46;78;111;116;101;123]) =
+    POk (mksel [CClass (of_ascii [78;111;116;101]); CElement (of_ascii [112])] None) (of_ascii [123]).
+Proof. repeat split; vm_compute; reflexivity. Qed.
 
 Print Assumptions parse_selector_rt_nthws.
 Print Assumptions parse_selector_rt_ws_nthws.
